@@ -76,7 +76,8 @@ def run_tlc(module, cfg, workdir=None, workers=1, env=None, timeout=1800,
                 f.write(cfg)
         else:
             cfgname = cfg
-        jopts = ['-XX:+UseParallelGC', '-Xss16m']
+        jopts = ['-XX:+UseParallelGC', '-XX:ParallelGCThreads=4', '-Xmx6g',
+                 '-Xss16m']
         if dfs_queue:
             jopts.append('-Dtlc2.tool.queue.IStateQueue=StateDeque')
         jopts.extend(java_opts)
